@@ -57,6 +57,7 @@ def default_sig(rej: Dict[str, Any], rec: Dict[str, Any]) -> Dict[str, Any]:
         sig["after"] = last_token(text, d[1])
     elif clause.startswith("C03") or clause.startswith("C13"):
         sig["cls"] = rec.get("cls")
+        sig["msg"] = rec.get("msg")
     elif clause.startswith("C05"):
         sig["why"] = d[0] if d else None
     elif clause == "find raised on a valid query":
